@@ -141,6 +141,15 @@ func execScenario(env *hx.Env, files hx.Files, sc cliScenario, identical string)
 		if !filepath.IsAbs(spelled) && filepath.Dir(spelled) == "." {
 			outArg = filepath.Join("..", "alias-of-pkg", filepath.Base(spelled))
 		}
+	case "is-input-symlink", "is-input-hardlink":
+		// the setup file named as the output through a symbolic link / a hard link that lives in another directory
+		_ = os.MkdirAll(filepath.Join(root, "links"), 0o755)
+		outArg = filepath.Join(root, "links", "other_name.go")
+		if sc.OutKind == "is-input-symlink" {
+			_ = os.Symlink(inputAbs, outArg)
+		} else {
+			_ = os.Link(inputAbs, outArg)
+		}
 	case "is-input":
 		// the setup file itself named as the output: it must never be modified, so the run cannot succeed
 		outArg = spelled
@@ -165,7 +174,7 @@ func execScenario(env *hx.Env, files hx.Files, sc cliScenario, identical string)
 	if r.LogAbs == r.OutAbs {
 		r.LogAbs = ""
 	}
-	if sc.OutKind != "is-dir" && sc.OutKind != "missing-dir" && sc.OutKind != "is-input" && sc.OutKind != "is-input-alias" {
+	if sc.OutKind != "is-dir" && sc.OutKind != "missing-dir" && !strings.HasPrefix(sc.OutKind, "is-input") {
 		switch sc.Pre {
 		case "other":
 			_ = os.WriteFile(r.OutAbs, []byte("package home\n\n// stale content of an earlier run\nvar staleMarker = 1\n"), 0o644)
